@@ -1,70 +1,156 @@
-(* C02 item 4 -- per-class reachability of schema agreement: for the shape-deterministic classes all
-   ranks hold states of the same kinds / ndim / dtype whatever their update histories (so the ndim /
-   dtype hypotheses of sync_equals_local_merge hold on every reachable configuration of a group that
-   uses one configuration); MeanSquaredError, R2Score and Covariance are NOT (witness: one rank never
-   updated, one updated with a 2-D batch) -- this is D10.  The class table is tied to the real classes
-   by the schema correspondence stream of vlib/parts/C02_sync.py. *)
+(* C02 item 4 -- per-class reachability of schema agreement.  A rank's history is a list of updates, each
+   carrying the SHAPE and the DTYPE code of its data (Models/SyncSchema.v; 0 float32, 1 float64, 2 int32,
+   3 int64, 4 bool, 5 uint8).
+   * For the input-deterministic classes all ranks hold states of the same kinds / ndim / dtype whatever
+     their update histories (so the ndim / dtype hypotheses of the protocol theorems of Props/C02.v hold on
+     every reachable configuration of a group that uses one configuration).
+     NOTE: up to round 3 the model knew shapes only and listed Max / Min as deterministic: that was only
+     true of float32 data (the tie fed nothing else).  [reach_schema_agree] keeps its name for the honest
+     statement: histories carry dtypes, Max / Min are no longer in [deterministic_keys].
+   * Max, Min, MeanSquaredError, R2Score, Covariance are NOT deterministic:
+     - ndim: one rank never updated, one updated with a 2-D batch (D10, repaired in synclib by the ndim
+       negotiation: fx_d10);
+     - dtype: one rank never updated (float32 default), one updated with float64 data -- known finding
+       C02-state-dtype-follows-data; the protocol consequence is Props/C02.v [sync_refuted_dtype].
+   * They DO agree when every rank has been updated at least once, all data has one dtype and the shapes
+     meet the first-update provisos: [reach_schema_agree_same_dtype].
+   The class table is tied to the real classes by the schema correspondence stream of
+   vlib/parts/C02_sync.py (float32 / float64 / integer / bool data, raising updates included).
+   Statements only; proofs in Proofs/SyncSchemaP.v. *)
 From Coq Require Import ZArith List Bool String Arith Lia.
-From TE Require Import Base.Val Models.SyncSchema.
+From TE Require Import Base.Val Models.SyncSchema Proofs.SyncSchemaP.
 Import ListNotations.
 Open Scope string_scope.
 
-Lemma det_run (c : sclass) : shape_deterministic c -> forall h, s_run c h = s_init c.
-Proof.
-  intros H h. unfold s_run. generalize (s_init c). induction h as [|x h IH]; intros s; [reflexivity|].
-  cbn [fold_left]. rewrite H. apply IH.
-Qed.
-
+(* ---- deterministic w.r.t. shapes AND dtypes ---- *)
 Theorem reach_schema_agree :
   forall k c, In k deterministic_keys -> class_of k class_table = Some c ->
-    shape_deterministic c /\ forall h1 h2 : list (list nat), s_run c h1 = s_run c h2.
-Proof.
-  intros k c Hk Hc.
-  assert (Hd : shape_deterministic c).
-  { cbn in Hk. repeat (destruct Hk as [<-|Hk]; [cbn in Hc; inversion Hc; intros s x; reflexivity|]). destruct Hk. }
-  split; [exact Hd|]. intros h1 h2. rewrite !det_run by exact Hd. reflexivity.
-Qed.
+    input_deterministic c /\ forall h1 h2 : list upd_in, s_run c h1 = s_run c h2.
+Proof. exact SyncSchemaP.reach_schema_agree. Qed.
 
-(* every deterministic key is in the table (non-vacuity) *)
+(* every deterministic / dtype-following key is in the table (non-vacuity); together they cover the table *)
 Example deterministic_keys_in_table :
-  forallb (fun k => match class_of k class_table with Some _ => true | None => false end) deterministic_keys = true.
-Proof. reflexivity. Qed.
+  forallb (fun k => match class_of k class_table with Some _ => true | None => false end)
+          (deterministic_keys ++ dtype_following_keys) = true /\
+  List.length (deterministic_keys ++ dtype_following_keys) = List.length class_table.
+Proof. split; reflexivity. Qed.
 
 (* agreement of schemas gives the per-state ndim / dtype agreement the protocol theorems assume *)
 Theorem schema_agree_gives_ndim :
   forall (s1 s2 : schema) n, s1 = s2 -> nd_of n s1 = nd_of n s2.
 Proof. intros s1 s2 n ->. reflexivity. Qed.
+Theorem schema_agree_gives_dtype :
+  forall (s1 s2 : schema) n, s1 = s2 -> dt_of n s1 = dt_of n s2.
+Proof. intros s1 s2 n ->. reflexivity. Qed.
 
-(* D10: the first update fixes the ndim *)
+(* ---- dtype-following classes: agreement when every rank was updated and all data has one dtype ---- *)
+(* [uniform_hist k d h]: h is not empty, every update has dtype d and a shape meeting the class's proviso
+   (MSE / R2: 2-D; Covariance: 2-D and non-empty; Max / Min: none) *)
+Theorem reach_schema_agree_same_dtype :
+  forall k c d h1 h2, In k dtype_following_keys -> class_of k class_table = Some c ->
+    uniform_hist k d h1 -> uniform_hist k d h2 -> s_run c h1 = s_run c h2.
+Proof. exact SyncSchemaP.reach_schema_agree_same_dtype. Qed.
+
+Example uniform_hist_example :
+  uniform_hist "Covariance" 1 [([3; 2], 1%Z); ([1; 2], 1%Z)] /\ uniform_hist "Max" 3 [([2], 3%Z)] /\
+  s_run cov_class [([3; 2], 1%Z); ([1; 2], 1%Z)] = [("n", KInt); ("ss_sum", KT 2 1); ("sum", KT 1 1)].
+Proof. repeat split; try discriminate; repeat constructor. Qed.
+
+(* Max / Min exactly: the state is float64 iff some update carried float64 data (so ranks fed float32 and
+   integer data only agree with an un-updated rank; one float64 batch anywhere breaks the agreement) *)
+Theorem reach_schema_max_min_exact :
+  forall n h, s_run (ext_class n) h = [(n, KT 0 (if has_f64 (map snd h) then 1%Z else 0%Z))].
+Proof. exact SyncSchemaP.ext_run. Qed.
+Theorem reach_schema_agree_max_min_iff :
+  forall n h1 h2, s_run (ext_class n) h1 = s_run (ext_class n) h2 <-> has_f64 (map snd h1) = has_f64 (map snd h2).
+Proof. exact SyncSchemaP.ext_agree_iff. Qed.
+
+(* MSE / R2 / Covariance: the first accepted 2-D update alone fixes ndim and dtype (later updates accumulate
+   in place: a float64 batch added to a float32 state leaves it float32) *)
+Theorem reach_schema_first_update_decides_mse :
+  forall x1 x2 h1 h2, List.length (fst x1) = 2 -> List.length (fst x2) = 2 -> snd x1 <> 4%Z -> snd x2 <> 4%Z ->
+    sum_dt (snd x1) = sum_dt (snd x2) -> s_run mse_class (x1 :: h1) = s_run mse_class (x2 :: h2).
+Proof. exact SyncSchemaP.mse_first_update_decides. Qed.
+Theorem reach_schema_first_update_decides_r2 :
+  forall x1 x2 h1 h2, List.length (fst x1) = 2 -> List.length (fst x2) = 2 -> snd x1 <> 4%Z -> snd x2 <> 4%Z ->
+    sum_dt (snd x1) = sum_dt (snd x2) -> s_run r2_class (x1 :: h1) = s_run r2_class (x2 :: h2).
+Proof. exact SyncSchemaP.r2_first_update_decides. Qed.
+Theorem reach_schema_first_update_decides_cov :
+  forall x1 x2 h1 h2, List.length (fst x1) = 2 -> List.length (fst x2) = 2 -> hd 0 (fst x1) <> 0 -> hd 0 (fst x2) <> 0 ->
+    is_float (snd x1) = true -> snd x1 = snd x2 -> s_run cov_class (x1 :: h1) = s_run cov_class (x2 :: h2).
+Proof. exact SyncSchemaP.cov_first_update_decides. Qed.
+
+(* ---- D10: the first update fixes the ndim ---- *)
 Theorem reach_schema_refuted_mse :
   exists h1 h2, s_run mse_class h1 <> s_run mse_class h2 /\
                 nd_of "sum_squared_error" (s_run mse_class h1) = 0 /\ nd_of "sum_squared_error" (s_run mse_class h2) = 1.
-Proof. exists [], [[2; 2]]. split; [discriminate|split; reflexivity]. Qed.
+Proof. exists [], [([2; 2], 0%Z)]. split; [discriminate|split; reflexivity]. Qed.
 Theorem reach_schema_refuted_r2 :
   exists h1 h2, s_run r2_class h1 <> s_run r2_class h2 /\
                 nd_of "sum_obs" (s_run r2_class h1) = 0 /\ nd_of "sum_obs" (s_run r2_class h2) = 1.
-Proof. exists [], [[2; 2]]. split; [discriminate|split; reflexivity]. Qed.
+Proof. exists [], [([2; 2], 0%Z)]. split; [discriminate|split; reflexivity]. Qed.
 Theorem reach_schema_refuted_cov :
   exists h1 h2, s_run cov_class h1 <> s_run cov_class h2 /\
                 nd_of "ss_sum" (s_run cov_class h1) = 0 /\ nd_of "ss_sum" (s_run cov_class h2) = 2.
-Proof. exists [], [[2; 2]]. split; [discriminate|split; reflexivity]. Qed.
-(* ... while ranks that have all seen at least one (non-empty, 2-D) batch do agree *)
+Proof. exists [], [([2; 2], 0%Z)]. split; [discriminate|split; reflexivity]. Qed.
+(* ... while ranks that have all seen at least one (non-empty, 2-D) batch do agree on the ndim.
+   (The old statement had no dtype proviso; bool data is rejected by update() -- ``-`` on bool tensors
+   raises -- and leaves the 0-dim default, hence [snd x <> 4].) *)
 Theorem reach_schema_agree_after_first_update :
-  forall x1 x2 h1 h2, List.length x1 = 2 -> List.length x2 = 2 ->
+  forall x1 x2 h1 h2, List.length (fst x1) = 2 -> List.length (fst x2) = 2 -> snd x1 <> 4%Z -> snd x2 <> 4%Z ->
     nd_of "sum_squared_error" (s_run mse_class (x1 :: h1)) = nd_of "sum_squared_error" (s_run mse_class (x2 :: h2)).
-Proof.
-  intros x1 x2 h1 h2 H1 H2.
-  assert (K : forall h s, nd_of "sum_squared_error" s = 1 -> nd_of "sum_squared_error" (fold_left (s_upd mse_class) h s) = 1).
-  { induction h as [|x h IH]; intros s Hs; [exact Hs|]. cbn [fold_left]. apply IH. cbn [s_upd mse_class].
-    rewrite Hs. rewrite andb_false_r. exact Hs. }
-  unfold s_run. cbn [fold_left]. rewrite !K; [reflexivity| |].
-  - cbn [s_upd mse_class s_init]. rewrite H2. reflexivity.
-  - cbn [s_upd mse_class s_init]. rewrite H1. reflexivity.
-Qed.
+Proof. exact SyncSchemaP.agree_after_first_update_nd. Qed.
+
+(* ---- C02-state-dtype-follows-data: the data fixes the dtype ---- *)
+(* an un-updated rank (float32 default) and a rank updated with one float64 batch *)
+Theorem reach_schema_refuted_dtype_max :
+  exists h1 h2, s_run (ext_class "max") h1 <> s_run (ext_class "max") h2 /\
+                nd_of "max" (s_run (ext_class "max") h1) = nd_of "max" (s_run (ext_class "max") h2) /\
+                dt_of "max" (s_run (ext_class "max") h1) = 0%Z /\ dt_of "max" (s_run (ext_class "max") h2) = 1%Z.
+Proof. exists [], [([1], 1%Z)]. split; [discriminate|repeat split; reflexivity]. Qed.
+Theorem reach_schema_refuted_dtype_min :
+  exists h1 h2, s_run (ext_class "min") h1 <> s_run (ext_class "min") h2 /\
+                nd_of "min" (s_run (ext_class "min") h1) = nd_of "min" (s_run (ext_class "min") h2) /\
+                dt_of "min" (s_run (ext_class "min") h1) = 0%Z /\ dt_of "min" (s_run (ext_class "min") h2) = 1%Z.
+Proof. exists [], [([1], 1%Z)]. split; [discriminate|repeat split; reflexivity]. Qed.
+(* both ranks updated, same shapes (same ndim), float32 vs float64 first batch; a later float64 batch on the
+   float32 rank does not help (in-place accumulation) *)
+Theorem reach_schema_refuted_dtype_mse :
+  exists h1 h2, s_run mse_class h1 <> s_run mse_class h2 /\
+                nd_of "sum_squared_error" (s_run mse_class h1) = nd_of "sum_squared_error" (s_run mse_class h2) /\
+                dt_of "sum_squared_error" (s_run mse_class h1) = 0%Z /\ dt_of "sum_squared_error" (s_run mse_class h2) = 1%Z.
+Proof. exists [([2; 2], 0%Z); ([2; 2], 1%Z)], [([2; 2], 1%Z)]. split; [discriminate|repeat split; reflexivity]. Qed.
+Theorem reach_schema_refuted_dtype_r2 :
+  exists h1 h2, s_run r2_class h1 <> s_run r2_class h2 /\
+                nd_of "sum_obs" (s_run r2_class h1) = nd_of "sum_obs" (s_run r2_class h2) /\
+                dt_of "sum_obs" (s_run r2_class h1) = 0%Z /\ dt_of "sum_obs" (s_run r2_class h2) = 1%Z.
+Proof. exists [([2; 2], 0%Z); ([2; 2], 1%Z)], [([2; 2], 1%Z)]. split; [discriminate|repeat split; reflexivity]. Qed.
+Theorem reach_schema_refuted_dtype_cov :
+  exists h1 h2, s_run cov_class h1 <> s_run cov_class h2 /\
+                nd_of "sum" (s_run cov_class h1) = nd_of "sum" (s_run cov_class h2) /\
+                dt_of "sum" (s_run cov_class h1) = 0%Z /\ dt_of "sum" (s_run cov_class h2) = 1%Z.
+Proof. exists [([2; 2], 0%Z); ([2; 2], 1%Z)], [([2; 2], 1%Z)]. split; [discriminate|repeat split; reflexivity]. Qed.
+(* integer data: a 2-D int64 first batch makes the MSE state int64 *)
+Example mse_int64_state :
+  s_run mse_class [([2; 2], 3%Z)] = [("sum_squared_error", KT 1 3); ("sum_weight", KT 0 0)] /\
+  s_run mse_class [([2; 2], 2%Z); ([2; 2], 1%Z)] = [("sum_squared_error", KT 1 3); ("sum_weight", KT 0 0)].
+Proof. split; reflexivity. Qed.
 
 Print Assumptions reach_schema_agree.
 Print Assumptions schema_agree_gives_ndim.
+Print Assumptions schema_agree_gives_dtype.
+Print Assumptions reach_schema_agree_same_dtype.
+Print Assumptions reach_schema_max_min_exact.
+Print Assumptions reach_schema_agree_max_min_iff.
+Print Assumptions reach_schema_first_update_decides_mse.
+Print Assumptions reach_schema_first_update_decides_r2.
+Print Assumptions reach_schema_first_update_decides_cov.
 Print Assumptions reach_schema_refuted_mse.
 Print Assumptions reach_schema_refuted_r2.
 Print Assumptions reach_schema_refuted_cov.
 Print Assumptions reach_schema_agree_after_first_update.
+Print Assumptions reach_schema_refuted_dtype_max.
+Print Assumptions reach_schema_refuted_dtype_min.
+Print Assumptions reach_schema_refuted_dtype_mse.
+Print Assumptions reach_schema_refuted_dtype_r2.
+Print Assumptions reach_schema_refuted_dtype_cov.
